@@ -47,7 +47,7 @@ def sequences(n_items, trailing_comma_options=(False, True), GAPS=GAPS, last_kin
                     seq.append('comma')
                     seq += list(gaps[gi]); gi += 1
             # whitespace tokens are never adjacent
-            if any(a == 'sp' and b == 'sp' for a, b in zip(seq, seq[1:])):
+            if any(a in ('sp', 'nlsp') and b in ('sp', 'nlsp') for a, b in zip(seq, seq[1:])):
                 continue
             last = max(q for q, c in enumerate(seq) if c == 'item')
             for lk in last_kinds:
@@ -64,7 +64,7 @@ def text_of(at):
             if not a[1].is_concrete():
                 return None
             s = a[1].concrete()
-            for part in re.findall(r'/\*.*?\*/|[A-Za-z_][A-Za-z0-9_]*| |.', s, flags=re.S):
+            for part in re.findall(r'//[^\n]*|/\*.*?\*/|[A-Za-z_][A-Za-z0-9_]*| |.', s, flags=re.S):
                 out.append(('s',) if part == ' ' else ('w', part))
         else:
             return None
@@ -156,6 +156,8 @@ def relex(toks, kt, construct):
             kids.append(Node(kt.k('Comma'), text=Str.lit(',')))
         elif w.startswith('/*'):
             kids.append(Node(kt.k('BlockComment'), text=Str.lit(w)))
+        elif w.startswith('//'):
+            kids.append(Node(kt.k('LineComment'), text=Str.lit(w)))
         elif construct == 'dict' and re.match(r'^k\d+$', w):
             # `kN: vN`
             named = [Node(kt.k('Ident'), text=Str.lit(w))]
@@ -280,7 +282,7 @@ def explore(S, max_items=2, constructs=('call', 'array'), gaps=GAPS, ws_alts=WS_
     for construct in constructs:
         for n in range(min_items, max_items + 1):
             for seq in sequences(n, GAPS=gaps, last_kinds=last_kinds if construct in ('call', 'array') else ('item',)):
-                if seq.count('sp') > max_spaces:
+                if seq.count('sp') + seq.count('nlsp') > max_spaces:
                     continue
                 if construct in ('array', 'destruct') and n == 1 and seq.count('comma') == 0:
                     continue            # `(a)` is a parenthesised expression / pattern, not a list
@@ -303,6 +305,16 @@ def explore(S, max_items=2, constructs=('call', 'array'), gaps=GAPS, ws_alts=WS_
                             kids.append(Node(kt.k('Comma'), text=Str.lit(',')))
                         elif c == 'blk':
                             kids.append(Node(kt.k('BlockComment'), text=Str.lit('/*c%d*/' % i)))
+                        elif c == 'lc':
+                            kids.append(Node(kt.k('LineComment'), text=Str.lit('//c%d' % i)))
+                        elif c == 'nlsp':
+                            # the whitespace that ends a line comment: starts with a line break
+                            nl_alts = [a for a in ws_alts if a.startswith('\n')] or ['\n']
+                            sel = z3.Int('ws%d' % i)
+                            alt = nl_alts[ctx.choose([sel == q for q in range(len(nl_alts))])]
+                            nd = Node(kt.k('Space'), text=Str.lit(alt))
+                            spaces.append((i, nd))
+                            kids.append(nd)
                         else:
                             # a blank, or 1 / 2 / 4 line feeds (the classes the printer distinguishes: no break, break, blank lines below /
                             # above the cap); one path per alternative.  Other blank characters are decided in the C08 / C09 units.
@@ -375,6 +387,8 @@ def source_of(info):
             s += ','
         elif c == 'blk':
             s += '/*c%d*/' % i
+        elif c == 'lc':
+            s += '//c%d' % i
         else:
             s += info['spaces'].get(str(i), ' ')
     pre, post, _ = CONSTRUCTS[info['construct']]
